@@ -1,0 +1,105 @@
+//! Instrumentation points for an external verification harness.
+//!
+//! This module and every call into it are compiled only with `--cfg typstyle_verif`.
+//! Without that flag the crate is unchanged.
+//!
+//! - Conversion counters (per thread): how often each syntax node is converted.
+//! - A process-global callback invoked at every point, which lets a harness
+//!   schedule threads deterministically at these points.
+
+use std::{
+    cell::{Cell, RefCell},
+    collections::HashMap,
+    sync::{
+        atomic::{AtomicBool, Ordering},
+        RwLock,
+    },
+};
+
+use typst_syntax::SyntaxNode;
+
+/// Where the hook is called from.
+#[derive(Debug, Clone, Copy, PartialEq, Eq, Hash)]
+pub enum Point {
+    /// `format_source_inspect` entered.
+    FormatEnter,
+    /// The attribute store is computed.
+    Attributed,
+    /// The document is built.
+    Converted,
+    /// The document is rendered to a string.
+    Rendered,
+    /// Post-processing is done. The result is about to be returned.
+    FormatExit,
+    /// `format_source_range` entered.
+    RangeEnter,
+    /// `format_source_range` is about to return.
+    RangeExit,
+    ConvertExpr,
+    ConvertPattern,
+    ConvertMarkup,
+    ConvertMath,
+    ConvertArg,
+}
+
+/// Conversion counters of the current thread.
+#[derive(Debug, Clone, Default)]
+pub struct Counters {
+    /// Total number of node conversions.
+    pub conversions: u64,
+    /// Conversions per node, keyed by (span number, entry point).
+    pub per_node: HashMap<(u64, Point), u32>,
+}
+
+thread_local! {
+    static COUNTING: Cell<bool> = const { Cell::new(false) };
+    static COUNTERS: RefCell<Counters> = RefCell::new(Counters::default());
+}
+
+static HAS_CALLBACK: AtomicBool = AtomicBool::new(false);
+static CALLBACK: RwLock<Option<fn(Point)>> = RwLock::new(None);
+
+/// Install (or remove) the process-global callback.
+pub fn set_callback(callback: Option<fn(Point)>) {
+    *CALLBACK.write().unwrap() = callback;
+    HAS_CALLBACK.store(callback.is_some(), Ordering::SeqCst);
+}
+
+/// Start counting conversions on the current thread, from zero.
+pub fn start_counting() {
+    COUNTERS.with(|c| *c.borrow_mut() = Counters::default());
+    COUNTING.with(|c| c.set(true));
+}
+
+/// Stop counting on the current thread and return the counters.
+pub fn stop_counting() -> Counters {
+    COUNTING.with(|c| c.set(false));
+    COUNTERS.with(|c| std::mem::take(&mut *c.borrow_mut()))
+}
+
+/// A hook point without a node.
+#[inline]
+pub fn point(point: Point) {
+    if HAS_CALLBACK.load(Ordering::Relaxed) {
+        let callback = *CALLBACK.read().unwrap();
+        if let Some(callback) = callback {
+            callback(point);
+        }
+    }
+}
+
+/// A hook point at the conversion of a node.
+#[inline]
+pub fn convert(at: Point, node: &SyntaxNode) {
+    if COUNTING.with(|c| c.get()) {
+        COUNTERS.with(|c| {
+            let mut counters = c.borrow_mut();
+            counters.conversions += 1;
+            *counters
+                .per_node
+                .entry((node.span().into_raw().get(), at))
+                .or_default() += 1;
+        });
+    }
+    point(at);
+}
